@@ -443,7 +443,7 @@ pub fn run(ctx: &Ctx) -> Coverage {
         ("lark".into(), "start: /[ab]*/".into()),
     ];
     let sizes: Vec<usize> = if ctx.quick() { vec![31, 32, 33, 64, 65, 100] } else { vec![31, 32, 33, 63, 64, 65, 95, 96, 97, 100, 128, 129] };
-    let depth = ctx.tier.pick(3, 4);
+    let depth = ctx.tier.pick(4, 6);
     // sequential over sizes: the C API's rayon pool is process-global
     for n in sizes {
         if ctx.over_budget() {
